@@ -53,7 +53,9 @@ def cases(tier, rng):
     yield {'objs': [{'a': i, 's': 'x' * 50} for i in range(3000)], 'compression': None, 'via': 'shortread'}
     n = {'quick': 60, 'thorough': 800, 'search': 60}[tier]
     for _ in range(n):
-        k = rng.choice([0, 1, 2, 5, 50, 300, 300, 1500]) if tier != 'thorough' else rng.choice([0, 1, 5, 100, 3000, 30000])
+        k = rng.choice([0, 1, 2, 5, 50, 300, 300, 1500]) if tier != 'thorough' else rng.choice([0, 1, 5, 100, 1000, 3000])
+        if tier == 'thorough' and rng.random() < 0.05:
+            k = 30000       # a few MB
         if k >= 300:
             base = [gen_obj(rng) for _ in range(40)]
             objs = [base[rng.randrange(40)] for _ in range(k)]
@@ -132,6 +134,10 @@ def compare(case, r, m):
     plain = r['plain']
     step = 64 * 1024
     cuts = list(range(step, len(plain), step)) if case['compression'] is None else [len(plain) // 3, len(plain) // 3, 2 * len(plain) // 3]
+    # the model's decoder checks a list length per character (its termination argument): quadratic in the chunk size.
+    # Its output does not depend on the chunking (C15_line_rechunk, C17_roundtrip, C19_roundtrip — proved), so the model is
+    # additionally cut every KiB; the real loader keeps its own 64 KiB reads.
+    cuts = sorted(cuts + list(range(1024, len(plain), 1024)))
     a = C.run_driver([{'cmd': 'json_read', 'chunks': [list(c) for c in cut(plain, cuts)]}])[0]
     if 'exc' in a or 'error' in a:
         if not r['errors']:
